@@ -16,6 +16,7 @@ import GocoinV.Proofs.C16Trust
 import GocoinV.Proofs.C16Window
 import GocoinV.Proofs.C16Top
 import GocoinV.Proofs.C16Stale
+import GocoinV.Proofs.C16Files
 namespace GocoinV.Props.C16
 open GocoinV GocoinV.BlockDB
 
@@ -592,6 +593,42 @@ theorem written_record_file_is_fresh (env : Env) (hfix : env.advInvalid = Gen.Bl
   · refine .inr ⟨a, fun hl => ?_⟩
     have := t.below _ hl
     omega
+
+/-- A lost data file is GONE and stays gone, EVERY history, every option combination: a number in `FS.lost` names a file
+    that is in neither the main directory nor oldat/ — the store never creates a file with that number again (new files get
+    the numbers `maxdatfileidx + 1` at a roll-over and `maxdatfileidx' ≥ maxdatfileidx` in LoadBlockIndex, both above every
+    lost number by `lost_below_current`). -/
+theorem lost_file_is_gone (env : Env) (hfix : env.advInvalid = Gen.BlockDBFacts.advInvalid) (ops : List Op)
+    (hops : ∀ op ∈ ops, Op.wf env op) (hlen : ops.length < 2^31) (i : Nat)
+    (h : i ∈ (run env init ops).1.fs.lost) :
+    AL.get (run env init ops).1.fs.dats i = none ∧ AL.get (run env init ops).1.fs.olds i = none := by
+  have hadv : env.advInvalid = true := by rw [hfix]; exact fixed_code
+  exact (run_files env hadv fixed_code_invalid_counts fixed_code_restore ops init {} 0 init_files init_top (init_core env) hops
+    (by omega)).lost_gone i h
+
+/-- What an out-of-retention read answers (the Lean counterpart of the harness key
+    `out-of-retention-read-returns-other-bytes`): after EVERY history, `BlockGet` of a key for which `store_refines_map` drops
+    its claim (`keyLost`: the record points into a lost data file) reads NO data file — it returns the block held in the
+    cache, or the error `noFile` (`purged` for a zero-length record). It never returns bytes found in some other file of
+    that number. (Not proved here: that the cached bytes of such a key are the stored block — they were cached by BlockAdd or
+    by a read made while the file was still there, `Ref.cachedata` covers them only up to the moment the file is lost; the
+    harness compares them on every run.) -/
+theorem out_of_retention_get_reads_no_file (env : Env) (hfix : env.advInvalid = Gen.BlockDBFacts.advInvalid) (ops : List Op)
+    (hops : ∀ op ∈ ops, Op.wf env op) (hlen : ops.length < 2^31) (hash : Bytes)
+    (hl : keyLost (run env init ops).1 (keyOf hash) = true) :
+    let s := (run env init ops).1
+    (∃ c r, AL.get s.cache (keyOf hash) = some c ∧ AL.get s.index (keyOf hash) = some r ∧
+        (blockGet env s hash).2 = .data c.data r.trusted) ∨
+    (AL.get s.cache (keyOf hash) = none ∧ ∃ e t, (blockGet env s hash).2 = .getErr e t ∧ (e = .noFile ∨ e = .purged)) := by
+  have hadv : env.advInvalid = true := by rw [hfix]; exact fixed_code
+  exact blockGet_lost env _ hash (run_files env hadv fixed_code_invalid_counts fixed_code_restore ops init {} 0 init_files
+    init_top (init_core env) hops (by omega)) hl
+
+set_option maxRecDepth 1000000 in
+/-- non-vacuity: in `retentionHistory` block 1's record points into the lost file 0 and is not cached (cache size 1) -/
+example : keyLost (run (toyEnv true) init retentionHistory).1 (keyOf (hashW (blk200 1))) = true ∧
+    AL.get (run (toyEnv true) init retentionHistory).1.cache (keyOf (hashW (blk200 1))) = none ∧
+    (blockGet (toyEnv true) (run (toyEnv true) init retentionHistory).1 (hashW (blk200 1))).2 = .getErr .noFile false := by decide
 
 set_option maxRecDepth 1000000 in
 /-- non-vacuity of the three theorems above on `retentionHistory` (keep = 1, no backup; file 0 is lost): the lost number 0 is
